@@ -597,7 +597,7 @@ PROPS["C11"] = dict(
 
 PROPS["C02"] = dict(
     title="Acknowledged mode recovers from any bounded loss, duplication and reordering",
-    module="Cfdp.Props.C02e",
+    module="Cfdp.Props.C02f",
     namespace="Cfdp.Seg",
     theorems=["C02_round_completes", "C02_gaps_answered", "Cfdp.Recv.C02_finishes_when_complete", "Cfdp.Recv.C02_never_waits_complete", "Cfdp.Recv.C02_complete_is_success", "Cfdp.Recv.C02_size_check_passes", "Cfdp.Loop.C02_no_integrity_fault", "Cfdp.Net.C02_two_party_no_integrity_fault", "Cfdp.Loop.C02_recv_completes", "Cfdp.Loop.C02_send_completes", "Cfdp.Net.C02_two_party_completes",
               "Cfdp.Loop.C02_sender_answers_nak", "Cfdp.Loop.C02_receiver_recovers", "Cfdp.Loop.C02_recovery_round",
@@ -605,7 +605,7 @@ PROPS["C02"] = dict(
               "Cfdp.Loop.C02_lost_eof_round", "Cfdp.Loop.C02_lost_finished_round", "Cfdp.Loop.C02_lost_metadata_round",
               "Cfdp.Loop.C02_lossy_rounds", "Cfdp.Loop.C02_lossy_rounds_fair", "Cfdp.Loop.C02_two_party_nak_loop",
               "Cfdp.Loop.C02_eof_repeated", "Cfdp.Loop.C02_lost_eofs_round", "Cfdp.Loop.C02_lost_finisheds_round",
-              "Cfdp.Loop.C02_from_eof_lossy_rounds"],
+              "Cfdp.Loop.C02_from_eof_lossy_rounds", "Cfdp.Loop.C02_completion_then_lost_finisheds"],
     engines=["daemon", "recv", "send", "net"],
     design="§6 C02",
     technique="Lean 4 proofs of the recovery steps and of whole single-loss recovery rounds (lost data, EOF, Finished / ACK, Metadata) through both transaction models and the link, and of the receiver's NAK loop over any fair lossy schedule (any number of lossy rounds, limits derived from fairness); the whole transfer over a lossy schedule of both models is checked on two real daemons under a virtual clock with bounded fault plans",
@@ -667,7 +667,10 @@ PROPS["C02"] = dict(
                 "How a transfer gets into the loop is a theorem as well (Props/C02e.lean): the truthful EOF arriving at a receiver that holds the Metadata and part of the file leaves it "
                 "in mid-recovery with the request queue rebuilt and the ACK of the EOF due (eof_enters_recovery); once the ACK and the NAKs have gone out it is in the loop's starting "
                 "state (eof_enters_loop), so from the EOF's arrival any fair lossy schedule in which every missing byte gets through at least once ends with the delivery reported "
-                "(C02_from_eof_lossy_rounds). "
+                "(C02_from_eof_lossy_rounds). And out of it (Props/C02f.lean): the file-data PDU that completes the file leaves the receiver active, in the Finished phase with NoError / Complete "
+                "recorded and the Finished PDU due, nothing else pending (completion_state); after the transmission that follows it waits for the ACK in the starting state of the Finished "
+                "retransmission loop (completion_enters_wait), so a completed delivery whose Finished PDU or ACK is lost again and again below the limits still ends both transactions "
+                "with NoError (C02_completion_then_lost_finisheds). "
                 "PARTIAL: the loop theorems are per phase (data recovery with the EOF handshake done; EOF handshake with the data complete; Finished handshake); a lost Metadata PDU is a "
                 "single-loss round; the sender's own timers are not events of the two-party NAK loop (its inactivity limit while it waits for NAKs is bounded by C03 / C17). The "
                 "composition of all phases over one lossy fair schedule of both models is not one theorem. It is checked on the real code: the daemon engine runs acknowledged transfers between two real daemons with every kind of fault "
